@@ -763,7 +763,8 @@ def toy_prop_inputs(rng, tier):
         assoc_all = p <= (23 if tier == "quick" else 47)
         for i in range(npts):
             res.append(("toy_group", {"curve": [p, a, b, n], "i": i, "assoc": assoc_all or i < 4}))
-        idx = range(npts) if (p <= 23 or tier == "thorough") else [0] + rng.sample(range(1, npts), 5)
+        idx = range(npts) if (p <= 23 or (tier == "thorough" and p <= 47)) else \
+            [0] + rng.sample(range(1, npts), 5 if tier == "quick" else 10)
         for i in idx:
             res.append(("toy_scalar", {"curve": [p, a, b, n], "i": i}))
         pts = curve_points(p, a, b)
